@@ -77,6 +77,8 @@ def gen_core(rng, knobs=None):
             if pol['src'] == 'scripted' and rng.random() < k.get('p_sync', 0.3):
                 pol['sync'] = items(rng, rng.choice([0, 1, 2, 3, 5]))
                 pol['complete_on_last'] = rng.random() < 0.5
+            elif pol['src'] == 'scripted' and rng.random() < k.get('p_pub_in_subscribe', 0.1):
+                pol['pub_in_subscribe'] = rng.choice(['complete', 'complete', 'error'])      # an empty / failing publisher
             if rng.random() < k.get('p_collector', 0.2):
                 # the library's own batching subscriber (AwaitableRSocket.request_stream(limit_rate))
                 pol['collector'] = {'limit_rate': rng.choice([1, 1, 2, 2, 3, 5]), 'limit_count': rng.choice([None, None, None, 2, 3])}
@@ -103,6 +105,10 @@ def gen_core(rng, knobs=None):
             if ppol is not None and ppol['src'] == 'scripted' and rng.random() < k.get('p_sync', 0.3):
                 ppol['sync'] = items(rng, rng.choice([0, 1, 2, 3]))
                 ppol['complete_on_last'] = rng.random() < 0.5
+            elif ppol is not None and ppol['src'] == 'scripted' and rng.random() < k.get('p_pub_in_subscribe', 0.15):
+                ppol['pub_in_subscribe'] = rng.choice(['complete', 'complete', 'error'])
+            if pol['src'] == 'scripted' and pol['pub'] and 'sync' not in pol and rng.random() < k.get('p_pub_in_subscribe', 0.1):
+                pol['pub_in_subscribe'] = rng.choice(['complete', 'complete', 'error'])
             if rng.random() < k.get('p_collector', 0.2):
                 pol['collector'] = {'limit_rate': rng.choice([1, 1, 2, 2, 3, 5]), 'limit_count': rng.choice([None, None, None, 2, 3])}
             n0 = rng.choice([1, 2, 3, 5, 2147483647, None])
